@@ -6,7 +6,6 @@ use crate::ops::*;
 use crate::rng::Rng;
 
 const P: &str = "C05";
-pub const SIG_CONVERT_OVERSHOOT: &str = "C05:convert_bsei_stsei:restoring_cap_ignores_discounted_remainder";
 
 #[derive(Default)]
 pub struct C05 {}
@@ -77,19 +76,7 @@ impl Monitor for C05 {
             let claims = post.claims_b();
             if backing > claims + 2 {
                 let excess = backing - claims;
-                let mut known = false;
-                if let Op::Convert { tok: Tok::B, amount, .. } = c.op {
-                    // recorded finding: the restoring cap of this path is the whole peg gap although the remainder
-                    // leaves the pool at the discounted rate; the resulting excess is at most (1-r)(amount-gap)+2
-                    let a = *amount;
-                    let g = gap.min(a);
-                    let bound = mul_div_ceil(E18 - pre.rb, a - g, E18) + 2;
-                    if fee_charged && credited >= min_credited && excess <= bound {
-                        known = true;
-                        out.known(P, "no_over_restoration", SIG_CONVERT_OVERSHOOT, format!("convert bSei->stSei of {} at rate {} (gap {}): backing {} exceeds claims {} by {} (<= bound {})", a, pre.rb, gap, backing, claims, excess, bound));
-                    }
-                }
-                if !known {
+                {
                     out.violation(P, "no_over_restoration", format!("{}: started at bSei rate {} (gap {}) and left backing {} above claims {} by {}", path, pre.rb, gap, backing, claims, excess));
                 }
             }
